@@ -9,6 +9,7 @@ import Pyunicorn.Lemmas.NsiComp
 import Pyunicorn.Lemmas.NsiCompInv
 import Pyunicorn.Lemmas.NsiCompArenas
 import Pyunicorn.Lemmas.NsiCompConn
+import Pyunicorn.Lemmas.NsiBetwKernel
 import Pyunicorn.Model.NsiMeasures
 /-!
 # C02 — Node-splitting invariance of all n.s.i. measures
@@ -288,6 +289,101 @@ theorem nsi_betweenness_split_bfs (G : Gr) (v : Nat) (p : Rat) (hv : v < G.n) (h
 example : bfsDist pathG 0 2 = some 2 ∧ bfsDist pathG 0 0 = some 0 ∧
     bfsDist (split pathG 1 (1/4)) 1 3 = some 1 ∧
     nsiBetw (withBfs (split pathGd 1 (1/4))) (fun _ => true) (fun _ => true) 3 = 3 := by
+  decide +kernel
+
+/-! ### round 5b: the invariance carried through to the model of the Cython kernel
+
+Rounds 3–5 proved the invariance of the *definition* `nsiBetw`; that the model of the kernel
+`_nsi_betweenness` (`NetBetw.nsiBetweenness`: breadth-first search with predecessor lists and
+weighted multiplicities, backward sweep, `/ w`; shared with C03) computes this definition was an
+exact per-case agreement in the driver (flag `betw` / `betwsplit`).  Round 5 of C03 proved the
+kernel model equal to the pair-dependency definition for every undirected network
+(`NetBetw.nsiBetweenness_eq_def_full`); `Lemmas/NsiBetwKernel.lean` proves that pair-dependency
+definition equal to `nsiBetw` (`def_eq_nsiBetw`: `sigLev = w_j · wcount`, `sigThruLev = w_j ·
+wcount · wcount`), `Lemmas/NsiBetwWalk.lean` that C03's distance matrix is the shortest-path
+length.  Hypotheses left: symmetric adjacency (the wrapper asserts an undirected network),
+positive node weights, and for the split: loop-free, `v < N`, `0 < p < 1`.  Sources are a mask
+`S` (the kernel's `is_source`), targets the increasing list of the nodes of a set `T`. -/
+
+/-- **the kernel model of `_nsi_betweenness` computes the documented definition**: for every
+undirected network with positive node weights, all source / target sets and every node `i`,
+entry `i` of `Network._nsi_betweenness` (kernel + wrapper) is
+`Σ_{t ∈ T, s ∈ S, s ≠ i ≠ t} w_s w_t n*_ts(i) / (w_i n*_ts)` with breadth-first distances. -/
+theorem nsi_betweenness_kernel_eq_def (G : Gr) (hsym : ∀ x y, G.adj x y = G.adj y x)
+    (hw : ∀ k, k < G.n → 0 < G.w k) (S T : Nat → Bool) (i : Nat) (hi : i < G.n) :
+    (NetBetw.nsiBetweenness G.n G.adj G.w ((List.range G.n).map S)
+        ((List.range G.n).filter T)).getD i 0 = nsiBetw (withBfs G) T S i :=
+  kernel_eq_nsiBetw_bfs G hsym hw S T i hi
+
+/-- **Node-splitting invariance of `_nsi_betweenness` as the kernel computes it**: for every
+undirected loop-free network with positive node weights, every node `v`, `0 < p < 1`, all source
+and target sets and every node `a` of the split network, the kernel model run on the split
+network (sources / targets: both twins belong to a set iff `v` does) returns at `a` what the
+kernel model run on the original network returns at `collapse a`. -/
+theorem nsi_betweenness_kernel_split (G : Gr) (v : Nat) (p : Rat) (hv : v < G.n) (hp0 : 0 < p)
+    (hp1 : p < 1) (hw : ∀ k, k < G.n → 0 < G.w k) (hloop : ∀ i, G.adj i i = false)
+    (hsym : ∀ x y, G.adj x y = G.adj y x) (S T : Nat → Bool) (a : Nat) (ha : a < G.n + 1) :
+    (NetBetw.nsiBetweenness (G.n + 1) (split G v p).adj (split G v p).w
+        ((List.range (G.n + 1)).map fun k => S (collapse G.n v k))
+        ((List.range (G.n + 1)).filter fun k => T (collapse G.n v k))).getD a 0
+      = (NetBetw.nsiBetweenness G.n G.adj G.w ((List.range G.n).map S)
+          ((List.range G.n).filter T)).getD (collapse G.n v a) 0 := by
+  have h1 := nsi_betweenness_kernel_eq_def (split G v p) (split_adj_symm G v p hsym)
+    (split_weights_pos G v p hv hp0 hp1 hw) (fun k => S (collapse G.n v k))
+    (fun k => T (collapse G.n v k)) a ha
+  have h2 := nsi_betweenness_kernel_eq_def G hsym hw S T (collapse G.n v a)
+    (collapse_lt_n G.n v a hv ha)
+  rw [show (split G v p).n = G.n + 1 from rfl] at h1
+  rw [h1, h2]
+  exact nsi_betweenness_split_bfs G v p hv hp0 hp1 hw hloop T S a ha
+
+/-- per-node form for the kernel model: untouched nodes keep their value, both twins carry `v`'s -/
+theorem nsi_betweenness_kernel_split_nodes (G : Gr) (v : Nat) (p : Rat) (hv : v < G.n)
+    (hp0 : 0 < p) (hp1 : p < 1) (hw : ∀ k, k < G.n → 0 < G.w k) (hloop : ∀ i, G.adj i i = false)
+    (hsym : ∀ x y, G.adj x y = G.adj y x) (S T : Nat → Bool) :
+    (∀ i, i < G.n →
+      (NetBetw.nsiBetweenness (G.n + 1) (split G v p).adj (split G v p).w
+          ((List.range (G.n + 1)).map fun k => S (collapse G.n v k))
+          ((List.range (G.n + 1)).filter fun k => T (collapse G.n v k))).getD i 0
+        = (NetBetw.nsiBetweenness G.n G.adj G.w ((List.range G.n).map S)
+            ((List.range G.n).filter T)).getD i 0) ∧
+    (NetBetw.nsiBetweenness (G.n + 1) (split G v p).adj (split G v p).w
+        ((List.range (G.n + 1)).map fun k => S (collapse G.n v k))
+        ((List.range (G.n + 1)).filter fun k => T (collapse G.n v k))).getD G.n 0
+      = (NetBetw.nsiBetweenness G.n G.adj G.w ((List.range G.n).map S)
+          ((List.range G.n).filter T)).getD v 0 := by
+  constructor
+  · intro i hi
+    have := nsi_betweenness_kernel_split G v p hv hp0 hp1 hw hloop hsym S T i (by omega)
+    rwa [show collapse G.n v i = i by unfold collapse; rw [if_neg (by omega)]] at this
+  · have := nsi_betweenness_kernel_split G v p hv hp0 hp1 hw hloop hsym S T G.n (by omega)
+    rwa [show collapse G.n v G.n = v by unfold collapse; rw [if_pos rfl]] at this
+
+/-- **`Network.nsi_betweenness()` with default arguments** (model `NetBetw.apiBetweenness … none
+none true`: all nodes are sources and targets, `parallelize=False`) **is node-splitting
+invariant as computed**: untouched nodes keep their value, both twins carry `v`'s. -/
+theorem nsi_betweenness_api_all_split (G : Gr) (v : Nat) (p : Rat) (hv : v < G.n) (hp0 : 0 < p)
+    (hp1 : p < 1) (hw : ∀ k, k < G.n → 0 < G.w k) (hloop : ∀ i, G.adj i i = false)
+    (hsym : ∀ x y, G.adj x y = G.adj y x) (a : Nat) (ha : a < G.n + 1) :
+    (NetBetw.apiBetweenness (G.n + 1) (split G v p).adj (split G v p).w none none true).getD a 0
+      = (NetBetw.apiBetweenness G.n G.adj G.w none none true).getD (collapse G.n v a) 0 := by
+  have key : ∀ (n : Nat) (ad : Nat → Nat → Bool) (w : Nat → Rat),
+      NetBetw.apiBetweenness n ad w none none true
+        = NetBetw.nsiBetweenness n ad w ((List.range n).map fun _ => true)
+            ((List.range n).filter fun _ => true) := by
+    intro n ad w
+    simp [NetBetw.apiBetweenness, NetBetw.srcMaskOf]
+  rw [key, key]
+  exact nsi_betweenness_kernel_split G v p hv hp0 hp1 hw hloop hsym (fun _ => true)
+    (fun _ => true) a ha
+
+/-- non-vacuity: on the path 0–1–2 with weights 1, 2, 3 the KERNEL MODEL returns `BC*(1) = 3`,
+`BC*(0) = 0`, and after splitting node 1 at 1/4 both twins (1 and 3) carry 3 -/
+example :
+    (NetBetw.nsiBetweenness 3 pathGd.adj pathGd.w ((List.range 3).map fun _ => true)
+        ((List.range 3).filter fun _ => true)) = [0, 3, 0] ∧
+    (NetBetw.nsiBetweenness 4 (split pathGd 1 (1/4)).adj (split pathGd 1 (1/4)).w
+        ((List.range 4).map fun _ => true) ((List.range 4).filter fun _ => true)) = [0, 3, 0, 3] := by
   decide +kernel
 
 /-! ### round 4 (b): Newman-type random-walk betweenness, with the matrix inverse as an assumed
